@@ -60,6 +60,49 @@ func Lex(s string) (toks []Tok, comments []string) {
 	return
 }
 
+// LexAll is Lex with the comments left in place as tokens of kind ';'
+// (text with trailing white space removed).
+func LexAll(s string) []Tok {
+	r := []rune(s)
+	var out []Tok
+	i := 0
+	for i < len(r) {
+		c := r[i]
+		switch {
+		case unicode.IsSpace(c):
+			i++
+		case c == ';':
+			j := i
+			for j < len(r) && r[j] != '\n' {
+				j++
+			}
+			out = append(out, Tok{Kind: ';', Text: strings.TrimRightFunc(string(r[i:j]), unicode.IsSpace)})
+			i = j
+		case c == '"':
+			j := i + 1
+			for j < len(r) && r[j] != '"' {
+				j++
+			}
+			if j == len(r) {
+				return append(out, Tok{Kind: 'u', Text: strings.TrimRightFunc(string(r[i:]), unicode.IsSpace)})
+			}
+			out = append(out, Tok{Kind: 's', Text: string(r[i : j+1])})
+			i = j + 1
+		case c == '(' || c == ')' || c == '[' || c == ']' || c == ',':
+			out = append(out, Tok{Kind: byte(c), Text: string(c)})
+			i++
+		default:
+			j := i
+			for j < len(r) && !unicode.IsSpace(r[j]) && !isDelim(r[j]) {
+				j++
+			}
+			out = append(out, Tok{Kind: 'a', Text: string(r[i:j])})
+			i = j
+		}
+	}
+	return out
+}
+
 func TokTexts(t []Tok) []string {
 	out := make([]string, len(t))
 	for i, x := range t {
